@@ -74,6 +74,19 @@ add("C14",
     "excluded from the exact comparison and counted); a zero generation speed is an error outcome excluded by the statements. Axiom-free.",
     "Rocq/Coq proof (loop invariants against an arbitrary oracle) + translator for constants + differential correspondence")
 
+add("C13",
+    "PARTIAL. Clause (a), rotation and crash-safety, is a set of Coq theorems over a model of _update_checkpoints / "
+    "_remove_stale_checkpoint / dump_to_file as atomic file steps (open tmp, finish, rename, remove): after the first checkpoint "
+    "of a call is complete every crash point leaves a complete checkpoint, a later call's re-write keeps the old file complete, "
+    "only the call's own files are ever touched or deleted, at most n remain - for every directory content, retention count >= 1 "
+    "and number of rounds. The model is tied to the code by injecting a crash before every file step and inside every write of "
+    "real checkpointed runs and comparing which files are absent / unloadable / loadable (inside Coq). Clause (b), lossless and "
+    "transparent dump/load, is NOT proved: dill is outside any model; it is covered by a dump-load-continue differential test only.",
+    "Trusted: Coq kernel; atomicity of os.replace and of the four step kinds; the harness's wrappers around open/dill/os. "
+    "num_checkpoints=0 is a known finding (F14b). ParallelArchipelago's own dump_to_file/_remove_stale_checkpoint are not "
+    "exercised (mpi4py absent). Clause (b) is a test, labelled as such in the evidence. Axiom-free.",
+    "Rocq/Coq proof over all crash prefixes + fault-injection correspondence; differential test for the dill clause")
+
 NOT_APPLICABLE = []
 def main():
     props = [json.loads(l)["id"] for l in open(os.path.join(HERE, "properties.jsonl"))]
